@@ -61,6 +61,13 @@
    string comparison of the whole name); the mutant FALSE = "a name of NameW or more characters is never found among
    the configured names" must be REJECTED by TLC (FieldSelect_mutant_names.cfg).
 
+   Number of selectors.  Keep / Remove do not depend on how long the list is: selectors whose first name is not a
+   member of the document change nothing (lemma PadIrrelevant, checked by TLC with two such selectors), so the
+   replay harness pads the lists of the cases to 9, 10, 16 and 40 selectors.  Mechanism switch M_RemovePerSelector =
+   TRUE (the code: one Dig + Suicide per selector); the mutant FALSE = "for more than ScanT plain root selectors the
+   root's members are scanned by index and deleted on the fly" (the swap-delete then moves the last member into the
+   slot just visited, and it is never looked at) must be REJECTED by TLC (FieldSelect_mutant_scan.cfg).
+
    One state = one CASE (family, document, selector list); the case is the only variable.               *)
 EXTENDS Integers, Sequences, FiniteSets, TLC, Json
 
@@ -72,6 +79,8 @@ CONSTANTS Fams,          \* sequence of scope families, see QuickFams / Thorough
           M_AllDocumentKindsFiltered,  \* mechanism (TRUE = the code): Do filters every event that carries a document
           M_BuffersPerInstance,    \* mechanism (TRUE = the code): every plugin instance allocates its own depth buffers
           M_NamesComparedWhole,    \* mechanism (TRUE = the code): a member name is looked up by its whole value
+          M_RemovePerSelector,     \* mechanism (TRUE = the code): remove_fields digs and deletes selector by selector
+          ScanT,                   \* the mutant ~M_RemovePerSelector scans by index for more than ScanT root selectors
           NameW                    \* the mutant ~M_NamesComparedWhole never finds names of NameW or more characters
 
 VARIABLES cs             \* [fam, doc, sels]; sels = <<>> while the selector list is not chosen yet
@@ -287,7 +296,16 @@ DigDel(sw, v, p) ==
        ELSE Obj([v.f EXCEPT ![i] = <<p[1], DigDel(sw, v.f[i][2], Tail(p))>>])
 RECURSIVE RemoveLoop(_, _, _)
 RemoveLoop(sw, paths, d) == IF paths = <<>> THEN d ELSE RemoveLoop(sw, Tail(paths), DigDel(sw, d, Head(paths)))
-ImplRemove(sw, list, d) == RemoveLoop(sw, ImplNorm(list), d)
+\* mutant only: `for i := 0; i < len(fields); i++ { if listed(fields[i]) { fields[i].Suicide() } }`
+RECURSIVE ScanDel(_, _, _)
+ScanDel(fs, S, i) == IF i > Len(fs) THEN fs
+                     ELSE IF fs[i][1] \in S THEN ScanDel(DelField(TRUE, fs, fs[i][1]), S, i + 1)
+                     ELSE ScanDel(fs, S, i + 1)
+ImplRemove(sw, list, d) ==
+  LET n == ImplNorm(list) IN
+  IF ~M_RemovePerSelector /\ Len(n) > ScanT /\ (\A i \in 1..Len(n) : Len(n[i]) = 1) /\ IsObj(d)
+    THEN Obj(ScanDel(d.f, {n[i][1] : i \in 1..Len(n)}, 1))
+    ELSE RemoveLoop(sw, n, d)
 
 -----------------------------------------------------------------------------
 (* the small scope: families of (documents x selector lists) *)
@@ -372,6 +390,12 @@ ImplFaithful(k, r, mk, mr) == /\ Canon(mk) = Canon(k)
 \* the plugin instance is reused for the next event: every depth buffer is empty again after Do
 BuffersClean(run) == BufsEmpty(run.bufs)
 
+\* lemma: the length of the list does not matter - selectors that start with a name the document does not have
+PAD1 == 11
+PAD2 == 12
+PadIrrelevant(k, r, P, d) == /\ Keep(P \cup {<<PAD1>>, <<PAD2, 1>>}, d) = k
+                             /\ Remove(P \cup {<<PAD1>>, <<PAD2, 1>>}, d) = r
+
 \* lemma: names matter only through equality.  Two permutations of the names 1..5 (the marker names stay).
 Rho(n, k) == IF k \notin 1..5 THEN k
              ELSE IF n = 1 THEN (CASE k = 1 -> 4 [] k = 4 -> 1 [] k = 2 -> 5 [] k = 5 -> 2 [] k = 3 -> 3)
@@ -436,6 +460,7 @@ AllInv ==
        /\ Named("ImplFaithful", ImplFaithful(k, r, mk, mr))
        /\ Named("BuffersClean", BuffersClean(run))
        /\ Named("WidthIndependent", WidthIndependent(k, r, P, d))
+       /\ Named("PadIrrelevant", PadIrrelevant(k, r, P, d))
        /\ Named("RenameInvariant", RenameInvariant(k, r, mk, mr, list, d))
        /\ PrintT("C18 " \o ToJson(ExportRec(d, list, k, r, mk, mr)))
 
@@ -528,6 +553,8 @@ InstInv ==
        /\ \A sch \in Merges(Len(oa), Len(ob)) :
             LET R == InstRun(S0, oa, ob, sch) IN R.docs[1] = Keep(P, cs.doc) /\ R.docs[2] = Keep(P, cs.doc2)
 
+\* the property the spec mutant ~M_RemovePerSelector must violate (content, not only order)
+MutantScanInv == Chosen => Canon(ImplRemove(TRUE, cs.sels, cs.doc)) = Canon(Remove(SeqSet(cs.sels), cs.doc))
 \* the property the spec mutant ~M_AllDocumentKindsFiltered must violate
 MutantKindInv == Chosen => KindIndependent(Keep(SeqSet(cs.sels), cs.doc), Remove(SeqSet(cs.sels), cs.doc),
                                            ImplKeep(FALSE, cs.sels, cs.doc), ImplRemove(FALSE, cs.sels, cs.doc), cs.doc)
@@ -570,6 +597,9 @@ ThoroughFams == <<
   Fam({1, 2, 3, 4, 5}, <<5>>, 5, {1}, {1, 2, 3, 4, 5}, 1, {1, 2, 3}, "both", FALSE),
   Fam({1, 2, JUNK}, <<3, 3, 2>>, 5, {1}, {1, 2}, 3, {1, 2}, "asc", FALSE)
 >>
+
+\* scope of the spec mutant "delete while scanning by index": flat documents, two root selectors
+ScanFams == << Fam({1, 2, 3}, <<3>>, 3, {1}, {1, 2, 3}, 1, {2}, "asc", FALSE) >>
 
 \* scope of the two-instance model and of its mutant (Cap = 2)
 InstFams == << Fam({1, 2}, <<2, 2>>, 3, {1}, {1, 2}, 2, {1}, "asc", FALSE) >>
